@@ -37,7 +37,10 @@ DIRECTIVE_LOCATIONS = [
 INTS = ["0", "1", "-1", "42", "-0", "123456789012345678901"]
 FLOATS = ["1.0", "-0.5", "1e3", "1.5E-2", "0.0", "2e+1"]
 STRINGS = ['""', '"a"', '"on"', '"implements"', '"a b"', '"\\n\\t\\"q\\""', '"\\u00e9\\u0041"', '"é中"',
-           '"\\ud83d"', '"\U0001F600"', '"#no,comment"', '"type"']
+           '"\\ud83d"', '"\U0001F600"', '"#no,comment"', '"type"',
+           # UTF-16 escapes: a surrogate PAIR (one astral character), lone high, lone low, high + non-low, reversed
+           '"\\uD83D\\uDE00"', '"a\\ud83d\\ude00b"', '"\\uDE00"', '"\\uD83D\\u0041"', '"\\uDE00\\uD83D"',
+           '"\\uD83D\\uD83D\\uDE00"']
 BLOCKS = ['""""""', '"""a"""', '"""\n  a\n   b\n  """', '"""on"""', '"""q \\""" r"""', '"""é"""', '""" x """']
 
 
